@@ -141,7 +141,7 @@ class Scheduler(PureScheduler, AbstractJob):
                 if not job.critical:
                     continue
                 exc = job.raised_exception()
-                if exc:
+                if exc is not None:
                     raise exc
         # we should not reach this point
         raise ValueError("Internal error in Scheduler.co_run()")
